@@ -88,7 +88,7 @@ func c16_derLen(n int) []byte {
 	return append([]byte{0x80 | byte(len(b))}, b...)
 }
 
-func tlv(tag byte, parts ...[]byte) []byte {
+func c16_tlv(tag byte, parts ...[]byte) []byte {
 	var c []byte
 	for _, p := range parts {
 		c = append(c, p...)
@@ -187,19 +187,19 @@ func (s ecSpec) clone() ecSpec {
 	return t
 }
 
-func (s ecSpec) primeTLV() []byte { return tlv(s.primeTag, s.primeC) }
+func (s ecSpec) primeTLV() []byte { return c16_tlv(s.primeTag, s.primeC) }
 
 func (s ecSpec) der() []byte {
-	fieldID := tlv(0x30, tlv(0x06, c16_oidContent(s.field)), s.primeTLV())
-	curve := [][]byte{tlv(0x04, s.a), tlv(0x04, s.b)}
+	fieldID := c16_tlv(0x30, c16_tlv(0x06, c16_oidContent(s.field)), s.primeTLV())
+	curve := [][]byte{c16_tlv(0x04, s.a), c16_tlv(0x04, s.b)}
 	if s.hasSeed {
-		curve = append(curve, tlv(0x03, []byte{s.seedPad}, s.seed))
+		curve = append(curve, c16_tlv(0x03, []byte{s.seedPad}, s.seed))
 	}
-	parts := [][]byte{tlv(0x02, []byte{1}), fieldID, tlv(0x30, curve...), tlv(0x04, s.base), tlv(0x02, s.orderC)}
+	parts := [][]byte{c16_tlv(0x02, []byte{1}), fieldID, c16_tlv(0x30, curve...), c16_tlv(0x04, s.base), c16_tlv(0x02, s.orderC)}
 	if s.hasCof {
-		parts = append(parts, tlv(0x02, s.cofC))
+		parts = append(parts, c16_tlv(0x02, s.cofC))
 	}
-	return tlv(0x30, parts...)
+	return c16_tlv(0x30, parts...)
 }
 
 type ecFields struct {
@@ -366,15 +366,15 @@ func container(kind int, c c16Curve, params []byte) []byte {
 	pub := append(append([]byte{4}, c.fx...), c.fy...)
 	priv := make([]byte, c.flen)
 	priv[c.flen-1] = 1
-	algo := tlv(0x30, tlv(0x06, c16_oidContent(oidECPublicKey)), params)
+	algo := c16_tlv(0x30, c16_tlv(0x06, c16_oidContent(oidECPublicKey)), params)
 	switch kind {
 	case kSPKI:
-		return tlv(0x30, algo, tlv(0x03, []byte{0}, pub))
+		return c16_tlv(0x30, algo, c16_tlv(0x03, []byte{0}, pub))
 	case kPKCS8:
-		inner := tlv(0x30, tlv(0x02, []byte{1}), tlv(0x04, priv), tlv(0xa1, tlv(0x03, []byte{0}, pub)))
-		return tlv(0x30, tlv(0x02, []byte{0}), algo, tlv(0x04, inner))
+		inner := c16_tlv(0x30, c16_tlv(0x02, []byte{1}), c16_tlv(0x04, priv), c16_tlv(0xa1, c16_tlv(0x03, []byte{0}, pub)))
+		return c16_tlv(0x30, c16_tlv(0x02, []byte{0}), algo, c16_tlv(0x04, inner))
 	case kSEC1:
-		return tlv(0x30, tlv(0x02, []byte{1}), tlv(0x04, priv), tlv(0xa0, params), tlv(0xa1, tlv(0x03, []byte{0}, pub)))
+		return c16_tlv(0x30, c16_tlv(0x02, []byte{1}), c16_tlv(0x04, priv), c16_tlv(0xa0, params), c16_tlv(0xa1, c16_tlv(0x03, []byte{0}, pub)))
 	default:
 		return params
 	}
@@ -722,11 +722,11 @@ func (g *c16Gen) mutants(ci int, compressed, withSeed bool) {
 	sp("prime-neg", func(s *ecSpec) { s.primeC = intContent(new(big.Int).Neg(c.p)) })
 	sp("prime-nonminimal", func(s *ecSpec) { s.primeC = append([]byte{0}, s.primeC...) })
 	sp("prime-octets", func(s *ecSpec) { s.primeTag = 0x04 })
-	sp("prime-in-seq", func(s *ecSpec) { s.primeC = tlv(0x02, s.primeC); s.primeTag = 0x30 })
+	sp("prime-in-seq", func(s *ecSpec) { s.primeC = c16_tlv(0x02, s.primeC); s.primeTag = 0x30 })
 	sp("field-char2", func(s *ecSpec) { s.field = oidChar2Field })
 	sp("field-char2-seq", func(s *ecSpec) {
 		s.field = oidChar2Field
-		s.primeTag, s.primeC = 0x30, append(tlv(0x02, []byte{0, 0xe9}), tlv(0x06, []byte{0x2a, 0x86, 0x48, 0xce, 0x3d, 1, 2, 3, 2}, tlv(0x02, []byte{74}))...)
+		s.primeTag, s.primeC = 0x30, append(c16_tlv(0x02, []byte{0, 0xe9}), c16_tlv(0x06, []byte{0x2a, 0x86, 0x48, 0xce, 0x3d, 1, 2, 3, 2}, c16_tlv(0x02, []byte{74}))...)
 	})
 	sp("field-other", func(s *ecSpec) { s.field = []int{1, 2, 840, 10045, 1, 3} })
 	sp("field-short", func(s *ecSpec) { s.field = []int{1, 2, 840, 10045, 1} })
